@@ -138,3 +138,10 @@ Theorem rows_differ k (r1 r2 : nat) : bytes k -> zlen k < 2^64 ->
 Proof.
   intros Hb Hl H1 H2 Hne E. apply fasthash64_seed_inj in E; try assumption; unfold R64; lia.
 Qed.
+
+(* the column is below width for every row index (the reduction modulo width does it) *)
+Lemma hash_bucket_lt_all width r k : (0 < width)%nat -> (hash_bucket width r k < width)%nat.
+Proof.
+  intros Hw. unfold hash_bucket.
+  pose proof (Z.mod_pos_bound (fasthash64 k (Z.of_nat r)) (Z.of_nat width) ltac:(lia)). lia.
+Qed.
